@@ -28,14 +28,14 @@ DOMAIN = {
         "alpha": [2.0, "auto", "auto_po2", ARR_COL, ARR_ROW], "use_stochastic_rounding": [True],
         "scale_axis": [0], "qnoise_factor": [0.5], "var_name": ["vq"], "use_variables": [True],
     },
-    "bernoulli": {"alpha": [2.0, "auto", "auto_po2"], "temperature": [2.0], "use_real_sigmoid": [False]},
+    "bernoulli": {"alpha": [2.0, "auto", "auto_po2"], "temperature": [2.0, 8.0], "use_real_sigmoid": [False]},
     "ternary": {"alpha": [2.0, "auto", "auto_po2"], "threshold": [0.7, 0.0, 0.123456789], "use_stochastic_rounding": [True],
                 "number_of_unrolls": [2]},
-    "stochastic_ternary": {"alpha": [2.0, "auto", "auto_po2"], "threshold": [0.7, 0.0], "temperature": [4.0],
+    "stochastic_ternary": {"alpha": [2.0, "auto", "auto_po2"], "threshold": [0.7, 0.0], "temperature": [4.0, 6.0],
                            "use_real_sigmoid": [False], "number_of_unrolls": [2]},
     "binary": {"use_01": [True], "alpha": [2.0, "auto", "auto_po2"], "use_stochastic_rounding": [True],
                "scale_axis": [0, [0, 1]], "elements_per_scale": [2], "min_po2_exponent": [-1], "max_po2_exponent": [0]},
-    "stochastic_binary": {"alpha": [2.0, "auto", "auto_po2"], "temperature": [2.0], "use_real_sigmoid": [False]},
+    "stochastic_binary": {"alpha": [2.0, "auto", "auto_po2"], "temperature": [2.0, 8.0], "use_real_sigmoid": [False]},
     "quantized_relu": {
         # 16 bits with a slope of 2^-9 / 2^-12: small floats whose printed form needs every digit
         "bits": [4, 3, 16], "integer": [1, 2], "use_sigmoid": [1], "negative_slope": [0.25, 2.0 ** -9, 2.0 ** -12],
